@@ -597,3 +597,34 @@ func filterFor(prop string, vs []verifkit.Violation) []verifkit.Violation {
 	}
 	return out
 }
+
+
+// TestVerifFlowPreempt is the preemptive tier: engine files named in the check's part are instrumented with a scheduling
+// point before every statement; besides the environment schedule, ONE goroutine is preempted at every point occurrence of
+// the default execution (it resumes only when nothing else can run, or earlier as a further deviation).
+func TestVerifFlowPreempt(t *testing.T) {
+	prop := os.Getenv("VERIF_PROPERTY")
+	rep := verifkit.NewReport(prop, "flow-preempt")
+	defer func() {
+		if err := rep.Write(); err != nil {
+			t.Fatal(err)
+		}
+		if rep.Violations() > 0 {
+			t.Fail()
+		}
+	}()
+	deadline := verifkit.Deadline(150*time.Second, 25*time.Minute)
+	for _, sc := range preemptScenariosFor(prop) {
+		if only := os.Getenv("VERIF_ONLY"); only != "" && !strings.Contains(sc.p.name(), only) {
+			continue
+		}
+		scn := flowScenario(sc.p)
+		scn.Name = "preempt/" + scn.Name
+		scn.PointFiles = true
+		inner := scn.Check
+		scn.Check = func(x *verifkit.Exec) []verifkit.Violation { return filterFor(prop, inner(x)) }
+		pb := sc.bound()
+		e := &verifkit.Explorer{T: t, Rep: rep, Scn: scn, MaxBound: 0, PreemptBound: &pb, MaxPointOccurrence: 2, Deadline: deadline}
+		e.Explore()
+	}
+}
